@@ -382,11 +382,26 @@ def check_fault_free(ctx, sc, entry, res, case):
         ctx.violation('%s|OUTPUT|not-json|%s|%s' % (PROP, entry, type(e).__name__), '%s output is not a readable notebook: %s' % (entry, e), case)
         return
     if canon(normalise_ids(got)) != canon(normalise_ids(merged)):
-        ctx.violation('%s|OUTPUT|differs|%s' % (PROP, entry), '%s output differs from the library merge' % entry, case)
+        ctx.violation('%s|OUTPUT|differs|%s|%s' % (PROP, entry, diff_class(got, merged)), '%s output differs from the library merge' % entry, case)
     if entry == 'driver':
         p = os.path.join(os.path.dirname(out), 'result-name-P.ipynb')
         if os.path.exists(p):
             ctx.violation('%s|DRIVER|wrote-P' % PROP, 'driver created the %P path', case)
+
+
+def diff_class(got, merged):
+    """Classifier: 'dup-id-repaired' when the library result holds duplicate cell ids and the written file differs from it
+    only in cell ids (nbformat regenerates duplicate ids when it writes a notebook); 'content' otherwise."""
+    ids = [c.get('id') for c in merged.get('cells', []) if 'id' in c]
+
+    def drop(nb):
+        nb = json.loads(json.dumps(nb))
+        for c in nb.get('cells', []):
+            c.pop('id', None)
+        return nb
+    if len(ids) != len(set(map(str, ids))) and canon(drop(got)) == canon(drop(merged)):
+        return 'dup-id-repaired'
+    return 'content'
 
 
 def normalise_ids(x):
@@ -517,7 +532,7 @@ def git_e2e(ctx, sc, sidx):
             import nbformat
             got = U.plain(nbformat.read(os.path.join(repo, 'n.ipynb'), as_version=4))
             if canon(normalise_ids(got)) != canon(normalise_ids(merged)):
-                ctx.violation('%s|GIT|content' % PROP, 'file left by git merge differs from the library merge', case)
+                ctx.violation('%s|GIT|content|%s' % (PROP, diff_class(got, merged)), 'file left by git merge differs from the library merge', case)
         except Exception as e:
             ctx.violation('%s|GIT|unreadable|%s' % (PROP, type(e).__name__), 'file left by git merge is not a notebook: %s' % e, case)
     finally:
